@@ -43,6 +43,8 @@ Qed.
 (* store fail-epochs *)
 Definition epoch_ok (c : cache) (x : region) : Prop :=
   store_epoch (c_sepochs c) (snd (nth (r_work x) (r_peers x) (0, 0))) = nth (r_work x) (r_sepochs x) 0.
+Definition not_tomb (c : cache) (x : region) : Prop :=
+  existsb (N.eqb (snd (nth (r_work x) (r_peers x) (0, 0)))) (c_tomb c) = false.
 Lemma nth_stamp se (l : list peer) i : (i < length l)%nat ->
   nth i (map (fun p : peer => store_epoch se (snd p)) l) 0 = store_epoch se (snd (nth i l (0, 0))).
 Proof.
@@ -87,7 +89,7 @@ Definition load_state (c : cache) : Prop :=
 Definition st_T (c : cache) (e : region) : Prop :=
   search (c_sorted c) k false = Some e /\ r_expired e = false /\ flagged e = false /\ r_verid e = d_verid T /\ epoch_ok c e.
 Definition stale (c : cache) (x : region) : Prop :=
-  search (c_sorted c) k false = Some x /\ r_expired x = false /\ flagged x = false /\ r_verid x <> d_verid T /\ epoch_ok c x.
+  search (c_sorted c) k false = Some x /\ r_expired x = false /\ flagged x = false /\ r_verid x <> d_verid T /\ epoch_ok c x /\ not_tomb c x.
 
 Lemma peers_T_nonempty R : In R truth -> d_peers R <> [].
 Proof. intros HR E. pose proof (tw_leader _ Htw R HR) as H. rewrite E in H. destruct H. Qed.
@@ -154,18 +156,28 @@ Lemma find_hit c x : search (c_sorted c) k false = Some x -> r_expired x = false
   find_region_by_key pd budget fuel 0 c k false = (Ok x, c, 0%nat).
 Proof. intros Hs He Hf. unfold find_region_by_key. rewrite Hs, He, Hf. reflexivity. Qed.
 
-Lemma rpc_ctx_in c x : cinv c -> In x (c_sorted c) -> r_expired x = false -> flagged x = false -> epoch_ok c x ->
+Lemma rpc_ctx_in c x : cinv c -> In x (c_sorted c) -> r_expired x = false -> flagged x = false -> epoch_ok c x -> not_tomb c x ->
   rpc_ctx c (r_verid x) = (Some (x, nth (r_work x) (r_peers x) (0, 0)), c).
 Proof.
-  intros Hc Hx He Hf Hep. unfold rpc_ctx. rewrite (get_by_verid_in truth c x Hc Hx), He.
-  unfold flagged in Hf. apply orb_false_iff in Hf. destruct Hf as [-> _]. cbn [orb]. unfold epoch_ok in Hep. rewrite Hep, N.eqb_refl. reflexivity.
+  intros Hc Hx He Hf Hep Hnt. unfold rpc_ctx. rewrite (get_by_verid_in truth c x Hc Hx), He.
+  unfold flagged in Hf. apply orb_false_iff in Hf. destruct Hf as [-> _]. cbn [orb]. unfold not_tomb in Hnt. rewrite Hnt.
+  unfold epoch_ok in Hep. rewrite Hep, N.eqb_refl. reflexivity.
 Qed.
-Lemma rpc_ctx_bad c x : cinv c -> In x (c_sorted c) -> r_expired x = false -> flagged x = false -> ~ epoch_ok c x ->
-  rpc_ctx c (r_verid x) = (None, upd_entry c x (invalidate_r 5)).
+Lemma rpc_ctx_bad c x : cinv c -> In x (c_sorted c) -> r_expired x = false -> flagged x = false -> ~ (epoch_ok c x /\ not_tomb c x) ->
+  exists reason, reason <> 0 /\ rpc_ctx c (r_verid x) = (None, upd_entry c x (invalidate_r reason)).
 Proof.
-  intros Hc Hx He Hf Hep. unfold rpc_ctx. rewrite (get_by_verid_in truth c x Hc Hx), He.
+  intros Hc Hx He Hf Hbad. unfold rpc_ctx. rewrite (get_by_verid_in truth c x Hc Hx), He.
   unfold flagged in Hf. apply orb_false_iff in Hf. destruct Hf as [-> _]. cbn [orb].
-  destruct (N.eqb_spec (store_epoch (c_sepochs c) (snd (nth (r_work x) (r_peers x) (0, 0)))) (nth (r_work x) (r_sepochs x) 0)) as [E|E]; [contradiction|reflexivity].
+  destruct (existsb (N.eqb (snd (nth (r_work x) (r_peers x) (0, 0)))) (c_tomb c)) eqn:Et; [exists 4; split; [discriminate|reflexivity]|].
+  destruct (N.eqb_spec (store_epoch (c_sepochs c) (snd (nth (r_work x) (r_peers x) (0, 0)))) (nth (r_work x) (r_sepochs x) 0)) as [E|E].
+  - exfalso. apply Hbad. split; [exact E|exact Et].
+  - exists 5. split; [discriminate|reflexivity].
+Qed.
+(* an entry that carries the version of a current region has its work peer on a store that is no tombstone *)
+Lemma entry_not_tomb c e R : cinv c -> In e (c_sorted c) -> In R truth -> r_verid e = d_verid R -> not_tomb c e.
+Proof.
+  intros Hc Hin HR Hv. destruct (ci_hist _ c Hc e R Hin HR Hv) as [_ [_ Hp]]. destruct (ci_ok _ c Hc e Hin) as [_ [_ [Hw _]]].
+  unfold not_tomb. apply (ci_tomb _ c Hc R); [exact HR|]. rewrite <- Hp. apply nth_In. exact Hw.
 Qed.
 
 (* ---- what the store answers ---- *)
@@ -196,7 +208,7 @@ Qed.
 Lemma st_T_leader_round c e : cinv c -> st_T c e -> nth (r_work e) (r_peers e) (0, 0) = d_leader T -> round c k = (true, c).
 Proof.
   intros Hc Hst Hl. destruct (st_T_entry c e Hc Hst) as [Hin [Hp Hw]]. destruct Hst as [Hs [He [Hf [Hv Hep]]]].
-  unfold Converge.round. rewrite (find_hit c e Hs He Hf), (rpc_ctx_in c e Hc Hin He Hf Hep).
+  unfold Converge.round. rewrite (find_hit c e Hs He Hf), (rpc_ctx_in c e Hc Hin He Hf Hep (entry_not_tomb c e T Hc Hin HT Hv)).
   rewrite (reply_current T e _ HT Hv); [|rewrite Hl; apply (tw_leader _ Htw T HT)].
   rewrite Hl. rewrite (proj2 (peer_eqb_eq _ _) eq_refl). reflexivity.
 Qed.
@@ -238,7 +250,7 @@ Lemma from_entry c e : cinv c -> In e (c_sorted c) -> r_verid e = d_verid T -> r
   (nth (r_work e) (r_peers e) (0, 0) = d_leader T \/
    store_reply (r_verid e) (nth (r_work e) (r_peers e) (0, 0)) = RepNotLeader (d_leader T)).
 Proof.
-  intros Hc Hin Hv He Hf Hep. split; [apply rpc_ctx_in; assumption|].
+  intros Hc Hin Hv He Hf Hep. split; [apply rpc_ctx_in; try assumption; apply (entry_not_tomb c e T); assumption|].
   destruct (ci_hist _ c Hc e T Hin HT Hv) as [_ [_ Hp]]. destruct (ci_ok _ c Hc e Hin) as [_ [_ [Hw _]]].
   assert (Hpin : In (nth (r_work e) (r_peers e) (0, 0)) (d_peers T)) by (rewrite <- Hp; apply nth_In; exact Hw).
   rewrite (reply_current T e _ HT Hv Hpin). destruct (peer_eqb (nth (r_work e) (r_peers e) (0, 0)) (d_leader T)) eqn:E.
@@ -309,12 +321,14 @@ Proof.
   unfold invalidate. rewrite (get_by_verid_in truth c x Hc Hin). apply invalidate_found; assumption.
 Qed.
 (* somebody failed on the work peer's store since the entry was made: the round only invalidates the entry *)
-Lemma epoch_bad_round c x : cinv c -> search (c_sorted c) k false = Some x -> r_expired x = false -> flagged x = false -> ~ epoch_ok c x ->
+Lemma epoch_bad_round c x : cinv c -> search (c_sorted c) k false = Some x -> r_expired x = false -> flagged x = false ->
+  ~ (epoch_ok c x /\ not_tomb c x) ->
   exists c', round c k = (false, c') /\ cinv c' /\ load_state c'.
 Proof.
-  intros Hc Hs He Hf Hep. destruct (found_entry c x Hc Hs He) as [Hin _].
-  exists (upd_entry c x (invalidate_r 5)). split; [|apply invalidate_found; [exact Hc|exact Hs|exact He|discriminate]].
-  unfold Converge.round. rewrite (find_hit c x Hs He Hf), (rpc_ctx_bad c x Hc Hin He Hf Hep). reflexivity.
+  intros Hc Hs He Hf Hbad. destruct (found_entry c x Hc Hs He) as [Hin _].
+  destruct (rpc_ctx_bad c x Hc Hin He Hf Hbad) as [reason [Hr Hrpc]].
+  exists (upd_entry c x (invalidate_r reason)). split; [|apply invalidate_found; assumption].
+  unfold Converge.round. rewrite (find_hit c x Hs He Hf), Hrpc. reflexivity.
 Qed.
 
 (* inserting current regions one after the other never uncovers an older entry for the key *)
@@ -396,10 +410,10 @@ Lemma stale_round c x : cinv c -> stale c x ->
   exists c', round c k = (false, c') /\ cinv c' /\
     (load_state c' \/ (exists e, st_T c' e) \/ (~ on_leader x /\ exists x', stale c' x' /\ on_leader x')).
 Proof.
-  intros Hc Hst. destruct (stale_entry c x Hc Hst) as [Hin [Hk Hr0]]. pose proof Hst as [Hs [He [Hf [Hv Hep]]]].
+  intros Hc Hst. destruct (stale_entry c x Hc Hst) as [Hin [Hk Hr0]]. pose proof Hst as [Hs [He [Hf [Hv [Hep Hnt]]]]].
   set (p := nth (r_work x) (r_peers x) (0, 0)).
   assert (Hround : forall rep, store_reply (r_verid x) p = rep -> rep <> RepOk -> round c k = (false, react c x p rep)).
-  { intros rep Hrep Hne. unfold Converge.round. rewrite (find_hit c x Hs He Hf), (rpc_ctx_in c x Hc Hin He Hf Hep). fold p. rewrite Hrep.
+  { intros rep Hrep Hne. unfold Converge.round. rewrite (find_hit c x Hs He Hf), (rpc_ctx_in c x Hc Hin He Hf Hep Hnt). fold p. rewrite Hrep.
     destruct rep; [congruence|reflexivity|reflexivity|reflexivity]. }
   assert (Hnf : forall c', c' = invalidate c (r_verid x) 5 -> cinv c' /\ load_state c').
   { intros c' ->. apply invalidate_to_load; [exact Hc|exact Hst|discriminate]. }
@@ -433,11 +447,13 @@ Proof.
       { cbn [switch_work r_sepochs r_peers]. rewrite set_nth_length. apply (ci_len _ c Hc x Hin). }
       split; [exact Hc2|]. right. right. split; [exact Hnotl|].
       exists (switch_work (c_sepochs c) j x). split.
-      * split; [|split; [exact He|split; [exact Hf|split; [exact Hv|]]]].
+      * split; [|split; [exact He|split; [exact Hf|split; [exact Hv|split]]]].
         -- rewrite upd_entry_sorted, (search_map _ _ _ (upd_fun_shape x _ (shape_switch_work (c_sepochs c) j))), Hs.
            cbn [option_map]. rewrite upd_fun_self. reflexivity.
         -- unfold epoch_ok. cbn [switch_work r_work r_peers r_sepochs upd_entry c_sepochs].
            rewrite nth_set_nth by (rewrite (ci_len _ c Hc x Hin); lia). reflexivity.
+        -- unfold not_tomb. cbn [switch_work r_work r_peers upd_entry c_tomb]. rewrite Hnth.
+           apply (ci_tomb _ c Hc R (d_leader R) HR). apply (tw_leader _ Htw R HR).
       * exists R. split; [exact HR|]. split; [exact Hid|]. exact Hnth.
     + destruct (invalidate_found c x 4 Hc Hs He ltac:(discriminate)) as [A B]. split; [exact A|left; exact B].
   - destruct ((d_ver R =? r_ver x) && (d_conf R =? r_conf x)) eqn:Eep.
@@ -461,7 +477,10 @@ Proof.
   destruct (flagged x) eqn:Ef.
   { do 2 apply rounds_mono. apply load_converges; [exact Hc|]. unfold load_state. rewrite Es. right; exact Ef. }
   destruct (N.eq_dec (store_epoch (c_sepochs c) (snd (nth (r_work x) (r_peers x) (0, 0)))) (nth (r_work x) (r_sepochs x) 0)) as [Hep|Hep].
-  2:{ destruct (epoch_bad_round c x Hc Es Ee Ef Hep) as [c1 [Hr1 [Hc1 Hl1]]]. rewrite (rounds_S _ _ _ Hr1).
+  2:{ destruct (epoch_bad_round c x Hc Es Ee Ef ltac:(intros [A _]; exact (Hep A))) as [c1 [Hr1 [Hc1 Hl1]]]. rewrite (rounds_S _ _ _ Hr1).
+      apply rounds_mono. apply load_converges; assumption. }
+  destruct (existsb (N.eqb (snd (nth (r_work x) (r_peers x) (0, 0)))) (c_tomb c)) eqn:Hnt.
+  { destruct (epoch_bad_round c x Hc Es Ee Ef ltac:(intros [_ B]; unfold not_tomb in B; congruence)) as [c1 [Hr1 [Hc1 Hl1]]]. rewrite (rounds_S _ _ _ Hr1).
       apply rounds_mono. apply load_converges; assumption. }
   destruct (verid_eqb (r_verid x) (d_verid T)) eqn:Ev.
   { apply verid_eqb_eq in Ev. do 2 apply rounds_mono. apply (st_T_converges c x Hc). repeat split; assumption. }
@@ -493,7 +512,7 @@ Proof.
             store_reply (r_verid e) (d_leader T) = RepOk /\ nth (r_work e) (r_peers e) (0, 0) = d_leader T).
   { intros Hl. destruct (find_load c Hc Hl) as [c1 [r1 [r' [Hf [Hv' [Hc1 [Hs [Hin [Hv [He [Hfl Hep]]]]]]]]]]].
     unfold Converge.round in Hr. rewrite Hf in Hr. replace (r_verid r') with (r_verid r1) in Hr by (rewrite Hv, Hv'; reflexivity).
-    rewrite (rpc_ctx_in c1 r1 Hc1 Hin He Hfl Hep) in Hr. exists r1.
+    rewrite (rpc_ctx_in c1 r1 Hc1 Hin He Hfl Hep (entry_not_tomb c1 r1 T Hc1 Hin HT Hv)) in Hr. exists r1.
     destruct (store_reply (r_verid r1) (nth (r_work r1) (r_peers r1) (0, 0))) eqn:Erep; try discriminate. injection Hr as <-.
     apply (Hent c1); try assumption. rewrite Erep. exact I. }
   destruct (search (c_sorted c) k false) as [x|] eqn:Es.
@@ -501,10 +520,12 @@ Proof.
   destruct (r_expired x) eqn:Ee; [apply Hload; unfold load_state; rewrite Es; left; exact Ee|].
   destruct (flagged x) eqn:Ef; [apply Hload; unfold load_state; rewrite Es; right; exact Ef|].
   destruct (N.eq_dec (store_epoch (c_sepochs c) (snd (nth (r_work x) (r_peers x) (0, 0)))) (nth (r_work x) (r_sepochs x) 0)) as [Hep|Hep].
-  2:{ exfalso. destruct (epoch_bad_round c x Hc Es Ee Ef Hep) as [c1 [Hr1 _]]. rewrite Hr1 in Hr. discriminate. }
+  2:{ exfalso. destruct (epoch_bad_round c x Hc Es Ee Ef ltac:(intros [A _]; exact (Hep A))) as [c1 [Hr1 _]]. rewrite Hr1 in Hr. discriminate. }
+  destruct (existsb (N.eqb (snd (nth (r_work x) (r_peers x) (0, 0)))) (c_tomb c)) eqn:Hnt.
+  { exfalso. destruct (epoch_bad_round c x Hc Es Ee Ef ltac:(intros [_ B]; unfold not_tomb in B; congruence)) as [c1 [Hr1 _]]. rewrite Hr1 in Hr. discriminate. }
   destruct (verid_eqb (r_verid x) (d_verid T)) eqn:Ev.
   - apply verid_eqb_eq in Ev. assert (Hin : In x (c_sorted c)) by (eapply search_in; exact Es).
-    unfold Converge.round in Hr. rewrite (find_hit c x Es Ee Ef), (rpc_ctx_in c x Hc Hin Ee Ef Hep) in Hr. exists x.
+    unfold Converge.round in Hr. rewrite (find_hit c x Es Ee Ef), (rpc_ctx_in c x Hc Hin Ee Ef Hep (entry_not_tomb c x T Hc Hin HT Ev)) in Hr. exists x.
     destruct (store_reply (r_verid x) (nth (r_work x) (r_peers x) (0, 0))) eqn:Erep; try discriminate. injection Hr as <-.
     apply (Hent c); try assumption. rewrite Erep. exact I.
   - exfalso. assert (Hst : stale c x).
